@@ -15,6 +15,10 @@ from run_seeded import run_patch          # noqa: E402
 from gsa.main import PROPS                # noqa: E402
 
 
+def _one(a):
+    return run_patch(a[0], a[1])
+
+
 def main():
     args = sys.argv[1:]
     patches = []
@@ -27,9 +31,12 @@ def main():
             patches.append(a)
     props = [p for p in PROPS if p != 'C19']
     na = nu = 0
-    for patch in patches:
+    jobs = int(os.environ.get('GSA_JOBS', '14'))
+    from concurrent.futures import ProcessPoolExecutor
+    with ProcessPoolExecutor(max_workers=jobs) as ex:
+        results = list(ex.map(_one, [(pt, props) for pt in patches]))
+    for patch, (res, err) in zip(patches, results):
         name = os.path.join(os.path.basename(os.path.dirname(patch)), os.path.basename(patch))
-        res, err = run_patch(patch, props)
         if err:
             print(f'{name}: ERROR {err}')
             continue
